@@ -455,6 +455,20 @@ func AllTopologies(nbTips int, rooted bool, tipNames ...string) (trees []*Tree, 
 	t.SetRoot(n)
 	err = allTopologies_recur(t, nbTips, total, &trees, tipNames...)
 
+	if rooted {
+		// Rooted topologies are enumerated on a tree hanging below an
+		// additional node (so that tips can also be inserted above the root).
+		// This node is not part of the topologies: we remove it.
+		for _, rt := range trees {
+			stem := rt.Root()
+			newroot := stem.neigh[0]
+			newroot.delNeighbor(stem)
+			rt.SetRoot(newroot)
+			rt.delNode(stem)
+			rt.UpdateTipIndex()
+		}
+	}
+
 	return
 }
 
